@@ -71,7 +71,9 @@ class SuccessOracle(Monitor):
 
     def _hook_a(self, ent, item) -> None:
         c = self.w.cfg
-        if item[0] == "finished" and item[2] == (0, 0, 2) and (c.mode == ACK or c.closure):
+        # the sender "reports success" with (no error, data complete); the file status it shows is whatever the
+        # Finished PDU said (with closure / in acknowledged mode there always is one)
+        if item[0] == "finished" and item[2][:2] == (0, 0) and (c.mode == ACK or c.closure):
             self._compare("sender_indication")
 
     def on_call(self, w, rec) -> None:
